@@ -53,6 +53,8 @@ def run_history(case):
     import copy
 
     m = Model()
+    O.reset_objects()
+    vops = O.resolve_aliases(ops)  # what the oracles read: a kept surrogate object passed again = its original content
     R, S = [], []
     originals = []  # (model that was deep-copied, its content and ids at that moment)
     carried = None  # (model, its snapshot, its ids) as read after the previous op — nothing touched the model since
@@ -117,10 +119,10 @@ def run_history(case):
                 r["changed"] = after != before or r["ids"] != ids_before
             s = {"keys": r["keys"], "changed": False, "ans": None, "effect": "as documented"}
             if out == "ok" and op[0] not in ("q", "fork", "call"):
-                exp = c03spec.expected_content(before, op)
+                exp = c03spec.expected_content(before, vops[i])
                 if exp is not None and exp != after:
                     r["effect"] = {"content differs in": [k for k in O.KEYS if exp[k] != after[k]]}
-            exp = (c03spec.expected_outcome(before, op) if op[0] not in ("q", "fork", "call")
+            exp = (c03spec.expected_outcome(before, vops[i]) if op[0] not in ("q", "fork", "call")
                    else None if op[0] == "call" else "ok")
             s["out"] = r["out"] if exp is None else exp
             fresh = None
@@ -152,7 +154,7 @@ def run_history(case):
                 r["prefix"] = True
                 s["prefix"] = True
         if check and out != "ok" and op[0] in c03spec.SURROGATE_PATHS:
-            r["surpath"] = c03spec.surrogate_reject_path(before, op)
+            r["surpath"] = c03spec.surrogate_reject_path(before, vops[i])
         R.append(r)
         S.append(s)
     if originals and S and S[-1] is not None:
@@ -196,7 +198,7 @@ def pool():
 def model_histories(cases):
     """M: per history, per op >= check_from {"out","ids","keys","ans"} from the Lean state machine
     (None for the build prefix)"""
-    res = driver.call_batch([{"op": "c03", "ops": [O.canon_op(o) for o in c["ops"]], "from": c.get("check_from", 0)}
+    res = driver.call_batch([{"op": "c03", "ops": [O.canon_op(o) for o in O.resolve_aliases(c["ops"])], "from": c.get("check_from", 0)}
                              for c in cases])
     out = []
     for c, r in zip(cases, res):
@@ -509,7 +511,7 @@ def run(ctx):
     evaluate(ctx, corpus, judge)
     evaluate(ctx, list(G.arity_histories()) + list(G.extra_histories()) + list(G.copy_histories())
              + list(G.empty_flux_histories()) + list(G.degenerate_histories()) + list(G.shadow_histories())
-             + list(G.scan_histories()), judge)
+             + list(G.scan_histories()) + list(G.alias_histories()), judge)
     ctx.exhaustive = True
     thorough = ctx.tier == "thorough"
     cur = []
